@@ -180,7 +180,17 @@ func genElectreReq(t *rapid.T, minAlts int) GenReq {
 	} else {
 		o.ValueMode = g.Int(vmHalf, vmPos)
 	}
+	// "any number of alternatives": mostly small (every tie layout is reachable with six), sometimes a few dozen,
+	// rarely more than a machine word of them
+	if g.Chance(1, 20) {
+		o.MinAlts, o.MaxAlts = 7, 16
+	} else if g.Chance(1, 2500) {
+		o.MinAlts, o.MaxAlts, o.ForceAllCons = 65, 70, 1 // about a second each
+	}
 	gr := genRequest(t, o)
+	if len(asL(gr.Req["choseToMake"])) >= 65 {
+		gr.Labels = append(gr.Labels, "alts>=65")
+	}
 	if g.Chance(1, 3) {
 		// veto-heavy: every criterion has q < p < v close together and values spread so that several criteria
 		// of one pair sit between p and v at the same time (partial discordance on more than one criterion)
